@@ -86,6 +86,9 @@ fn fake_bytes(rng: &mut Rng, kind: &str, why: &str, pad: usize, big: &[PoolStrea
         ("gzip", "comment-past-eof") => vec![0x1f, 0x8b, 8, 0x10, 1, 1, 1, 1, 2, 3, b'c', b'o'],
         ("gzip", _) => vec![0x1f, 0x8b, 8, 0, 0, 0, 0, 0, 0, 3, 0x07],
         ("zip", "signature") => vec![0x50, 0x4b, 0x01, 0x02, 0, 0, 0, 0],
+        // nothing but the two bytes every ZIP record starts with (then 0 to 5 other bytes, then whatever
+        // follows in the file: a real wrapper may begin two or three bytes behind a "PK")
+        ("zip", "bare") => vec![0x50, 0x4b],
         ("zip", "method") => {
             // a stored member (method 0) that says it is 70000 bytes long: what follows in the file
             // is, as far as the archive is concerned, inside it - and still has to be looked at
@@ -484,7 +487,7 @@ fn random_segs(rng: &mut Rng) -> Value {
             3..=4 => {
                 let why = match k {
                     "gzip" => *rng.pick(&["method", "fextra-past-eof", "name-past-eof", "comment-past-eof", "block"]),
-                    "zip" => *rng.pick(&["signature", "method", "extra-past-eof", "block"]),
+                    "zip" => *rng.pick(&["signature", "method", "extra-past-eof", "block", "bare", "bare"]),
                     "idat" => *rng.pick(&["crc", "short", "nolength", "truncated", "zero-chunk", "gap", "zero-chunk", "gap"]),
                     _ => "block",
                 };
